@@ -30,7 +30,22 @@ func init() {
 
 // ------------------------------------------------------------------ LK1
 
+// ruleLK1: the typestate is owed by every function that acquires the flock and runs a callback under it - a second
+// primitive next to the first (a waiting variant selected by a setting) is held to the same standard.
 func ruleLK1(c *Ctx) {
+	if len(c.F.LockPrims) <= 1 {
+		ruleLK1one(c, true)
+		return
+	}
+	saved := c.F.LockPrim
+	for i, lp := range c.F.LockPrims {
+		c.F.LockPrim = lp
+		ruleLK1one(c, i == 0)
+	}
+	c.F.LockPrim = saved
+}
+
+func ruleLK1one(c *Ctx, first bool) {
 	lp := c.F.LockPrim
 	if lp == nil {
 		c.unk("<module>", "lock-primitive", "-", "no lock primitive found: "+strings.Join(c.F.Problems, "; "))
@@ -465,6 +480,9 @@ func ruleLK1(c *Ctx) {
 		}
 	}
 	c.check(resOK, name, "f:callback-error-propagates", c.Pos(cb.Pos()), "the callback's error is returned", "the callback's error is not the function's result")
+	if !first {
+		return
+	}
 	// (g) the lock file keeps its inode: a flock belongs to the file that was opened, so whoever removes, renames over or
 	// recreates .ergo/lock by another name hands the next command a different file to lock while a holder of the old one
 	// is still inside its critical section
